@@ -2025,7 +2025,10 @@ func (p *printer) printExpr(expr js_ast.Expr, level js_ast.L, flags printExprFla
 	if p.options.MinifySyntax && (flags&parentWasUnaryOrBinaryOrIfTest) == 0 {
 		switch expr.Data.(type) {
 		case *js_ast.EUnary, *js_ast.EBinary, *js_ast.EIf:
-			expr = p.lateConstantFoldUnaryOrBinaryOrIfExpr(expr)
+			// "(x ? a.b : c)()" must not become "a.b()"
+			if folded := p.lateConstantFoldUnaryOrBinaryOrIfExpr(expr); folded.Data != expr.Data {
+				expr = p.guardAgainstBehaviorChangeDueToSubstitution(folded, flags)
+			}
 		}
 	}
 
